@@ -333,10 +333,25 @@ func (x *c14Run) checkListViews(l at.List, r *rng.R) {
 			break
 		}
 	}
-	// Reduce visits all in order
+	// Reduce visits all in order (also when the initial value is nil: it is the first accumulator, not an element)
 	var rl []any
 	l.Reduce(0, func(acc any, v any) any { rl = append(rl, v); return acc })
 	x.sameSeq("Reduce", rl, all, nil)
+	var rn []any
+	firstAcc := any("unset")
+	calls0 := 0
+	l.Reduce(nil, func(acc any, v any) any {
+		if calls0 == 0 {
+			firstAcc = acc
+		}
+		calls0++
+		rn = append(rn, v)
+		return "acc"
+	})
+	x.sameSeq("Reduce(nil initial)", rn, all, nil)
+	if len(all) > 0 && firstAcc != nil {
+		x.fail("Reduce(nil initial)", "the first call receives the initial value nil as accumulator", fmt.Sprintf("%v", firstAcc))
+	}
 	if x.bad {
 		return
 	}
@@ -664,6 +679,15 @@ func c14Case(c *fw.Ctx, r *rng.R, tree *spec.Spec) {
 				x.checkListViews(v, r)
 			}
 		case at.Object:
+			if r != nil && r.Chance(1, 4) {
+				// one container instance under two (or three) keys
+				drive.Protect(func() {
+					sh := at.NewObject("shared", 1)
+					sl := at.NewList("shared")
+					v.Set("dup-a", sh, "dup-b", sh, "dup-l1", sl, "dup-l2", sl, "dup-c", sh)
+				})
+				hist = append(hist, "one object under keys dup-a, dup-b, dup-c and one list under dup-l1, dup-l2")
+			}
 			before := top(v)
 			x.checkObjectViews(v)
 			if !x.bad && !sameTop(before, top(v)) {
